@@ -18,3 +18,35 @@ void x__ZSt20__throw_length_errorPKc(u8 *msg) { __VERIFIER_trap(); }
 #define VF_STRING_SELF_T void
 #endif
 u8 *x__ZNSt7__cxx1112basic_stringIcSt11char_traitsIcESaIcEE9_M_createERmm(VF_STRING_SELF_T *self, u64 *cap, u64 old) { u8 *p = malloc(*cap + 1); __VERIFIER_assume_nonnull(p); return p; }
+/* libstdc++ std::string, out-of-line members, on the real x86-64 SSO layout: +0 char* data, +8 size, +16 union { char local[16]; size_t capacity }
+ * (data == self + 16 <=> short string of capacity 15).  Written from bits/basic_string.tcc; growth reallocates like _M_create (doubling policy). */
+static u8 *vf_str_data(void *s) { return *(u8 **)s; }
+static u64 vf_str_size(void *s) { return *(u64 *)((u8 *)s + 8); }
+static u64 vf_str_cap(void *s) { return vf_str_data(s) == (u8 *)s + 16 ? (u64)15 : *(u64 *)((u8 *)s + 16); }
+/* basic_string::_M_mutate( pos, len1, s, len2 ): replace [pos, pos+len1) by s[0..len2) in a NEW allocation (size field left to the caller).
+ * Only reached when a string outgrows its capacity.  Default: growth is outside the claim of the including check and reaching it is REPORTED
+ * (assertion failure); a harness that wants growth defines VF_STRING_GROWTH before including verif.h and gets the reallocating model. */
+#ifdef VF_STRING_GROWTH
+void x__ZNSt7__cxx1112basic_stringIcSt11char_traitsIcESaIcEE9_M_mutateEmmPKcm(void *self, u64 pos, u64 len1, u8 *s, u64 len2) {
+  u64 len = vf_str_size(self), how_much = len - pos - len1, ncap = len + len2 - len1, ocap = vf_str_cap(self);
+  u8 *old = vf_str_data(self), *r;
+  if (ncap > 0x3fffffffffffffffULL) { x__ZSt20__throw_length_errorPKc((u8 *)"basic_string::_M_create"); return; }
+  if (ncap > ocap && ncap < 2 * ocap) { ncap = 2 * ocap; if (ncap > 0x3fffffffffffffffULL) ncap = 0x3fffffffffffffffULL; }
+  r = malloc(ncap + 1); __VERIFIER_assume_nonnull(r);
+  for (u64 i = 0; i < pos; ++i) r[i] = old[i];
+  if (s) for (u64 i = 0; i < len2; ++i) r[pos + i] = s[i];
+  for (u64 i = 0; i < how_much; ++i) r[pos + len2 + i] = old[pos + len1 + i];
+  if (old != (u8 *)self + 16) free(old);
+  *(u8 **)self = r; *(u64 *)((u8 *)self + 16) = ncap;
+}
+#else
+void x__ZNSt7__cxx1112basic_stringIcSt11char_traitsIcESaIcEE9_M_mutateEmmPKcm(void *self, u64 pos, u64 len1, u8 *s, u64 len2) { __VERIFIER_unreachable(); }
+#endif
+/* basic_string::_M_append( s, n ) */
+void *x__ZNSt7__cxx1112basic_stringIcSt11char_traitsIcESaIcEE9_M_appendEPKcm(void *self, u8 *s, u64 n) {
+  u64 sz = vf_str_size(self), len = sz + n;
+  if (len <= vf_str_cap(self)) { u8 *d = vf_str_data(self) + sz; for (u64 i = 0; i < n; ++i) d[i] = s[i]; }
+  else x__ZNSt7__cxx1112basic_stringIcSt11char_traitsIcESaIcEE9_M_mutateEmmPKcm(self, sz, 0, s, n);
+  *(u64 *)((u8 *)self + 8) = len; vf_str_data(self)[len] = 0;
+  return self;
+}
